@@ -49,8 +49,16 @@ func (e *c08ex) token() string {
 }
 
 func (e *c08ex) key(sym, k string) string {
-	if k == "right" {
+	switch k {
+	case "right":
 		return "key-" + sym
+	// the preimage with blanks around it is another byte string: a wrong key
+	case "rightws":
+		return "key-" + sym + " "
+	case "wsright":
+		return " key-" + sym
+	case "rightnl":
+		return "key-" + sym + "\n"
 	}
 	return "wrong-" + sym
 }
@@ -275,7 +283,7 @@ func (e *c08ex) Exec(op string) string {
 }
 
 // completions and cancellations naming the swap with its id in upper case: no such record
-var upperOps = []string{"doneU s1 right", "doneAU s1 right", "cancelAU s1", "cancelBU s1"}
+var upperOps = []string{"doneU s1 right", "doneAU s1 right", "cancelAU s1", "cancelBU s1", "done s1 rightws", "done s1 wsright", "done s1 rightnl", "rdone s1 rightws", "rdone s1 rightnl"}
 
 // lcOf: in the direct modes the owner may spell the destination channel in lower case
 func lcOf(c *Cfg, dir string) string {
@@ -380,6 +388,6 @@ func genC08(c *Cfg, emit func([]string)) {
 		}
 		emit(h)
 	}
-	c.Rule = fmt.Sprintf("(a) every sequence of %d steps over {begin, answer, user completion with right/wrong key on either channel, robot completion with right/wrong key, cancel on A, cancel on B} on one swap in both directions (exhaustive%s); (b) %d random histories with two concurrent swaps by different owners, begin through batches and task lists, a second begin under the id of an open swap (task route), begins with a token of neither channel, robot content off protocol, completions and cancellations naming the swap id in upper case (no such record), the destination channel spelled in lower case by the owner (direct swaps; counters stay under the upper-case name); two real chaincode instances; after every step balances of both owners on both channels, both given counters and the records visible through swapGet; the published key event is checked on completion. non-trivial = contains a begin; distinct = sha256", depth, map[bool]string{true: "", false: ", plus 1400 random walks of depth+3"}[c.Thorough()], nRand)
+	c.Rule = fmt.Sprintf("(a) every sequence of %d steps over {begin, answer, user completion with right/wrong key on either channel, robot completion with right/wrong key, cancel on A, cancel on B} on one swap in both directions (exhaustive%s); (b) %d random histories with two concurrent swaps by different owners, begin through batches and task lists, a second begin under the id of an open swap (task route), begins with a token of neither channel, robot content off protocol, completions and cancellations naming the swap id in upper case (no such record), keys that are the preimage with a blank or a line feed around it (wrong keys), the destination channel spelled in lower case by the owner (direct swaps; counters stay under the upper-case name); two real chaincode instances; after every step balances of both owners on both channels, both given counters and the records visible through swapGet; the published key event is checked on completion. non-trivial = contains a begin; distinct = sha256", depth, map[bool]string{true: "", false: ", plus 1400 random walks of depth+3"}[c.Thorough()], nRand)
 	c.Extra = map[string]any{"walk_depth": depth, "random": nRand}
 }
